@@ -39,7 +39,7 @@ Alphabet ==
                            \cup {Op("build", "", "")}
     [] Family = "c14" -> {Op("set", k, v) : k \in {"iss", "ca", "cb"}, v \in {"v1", "v2"}}
                            \cup {Op("remove", k, "") : k \in {"iss", "ca", "cb"}}
-                           \cup {Op("extend", "cb", "v1"), Op("extendw", "cb", "v1")}
+                           \cup {Op("extend", "cb", "v1"), Op("extendw", "cb", "v1"), Op("extend2", "", "v2")}
                            \cup {Op("build", "", "")}
 
 Init == b = BInit(Layer) /\ hist = <<>>
